@@ -332,7 +332,7 @@ func main() {
 					if ce, ok := n.(*ast.CallExpr); ok {
 						fun := src(ce.Fun)
 						switch fun {
-						case "newPrefixFetcher", "newIndexFetcher", "newDocumentFetcher", "newPermissionedFetcher", "newFilteredFetcher",
+						case "newPrefixFetcher", "newIndexFetcher", "newDocumentFetcher", "newPermissionedFetcher", "newFilteredFetcher", "newMultiFetcher",
 							"fetcher.NewDocumentFetcher", "NewDocumentFetcher", "new(fetcher.VersionedFetcher)", "lens.NewFetcher":
 							facts.FetcherSites = append(facts.FetcherSites, Wiring{rel, funcName(fd), fun, fset.Position(ce.Pos()).Line})
 						}
